@@ -1060,6 +1060,17 @@ class M2Executor(Executor):
             M2Executor.GENERATOR_NAMES = gens
         return name in M2Executor.GENERATOR_NAMES
 
+    def s_Expr(self, node, st, fr):
+        # a generator function called as a bare statement creates a generator object and discards it: NOTHING of its
+        # body runs (a forgotten `for result in ...: yield result`); hooks that model the callee must not fire
+        v = node.value
+        if isinstance(v, ast.Call) and isinstance(v.func, ast.Attribute) and isinstance(v.func.value, ast.Name) \
+                and v.func.value.id == 'self' and self.is_generator_call(v, st, fr):
+            self.lenient.append('bare-generator-call@L%d: %s never runs' % (node.lineno, v.func.attr))
+            res, out = self._eval_args(v, st, fr)
+            return out + [Outcome('normal', s_) for (s_, _r, _a, _k) in res]
+        return Executor.s_Expr(self, node, st, fr)
+
     def s_Continue(self, node, st, fr):
         h = getattr(self.spec, 'on_continue', None)
         if h is not None:
